@@ -85,8 +85,8 @@ CHECKS["C01"] = dict(
 )
 
 CHECKS["C05"] = dict(
-    technique="static analysis: loop-progress dataflow with interprocedural 'productive' summaries (greatest fixpoint over all parser classes) on a hand-built CFG; provenance/consumption analysis of cursor moves; must-dataflow dominance for table lookups; raise-family and argument-length lints",
-    text="Every while loop of the recursive-descent parser (all 34 parser classes) and of the tokenizer must reach each back edge having consumed a token (consuming-match conditions, unconditional advances, peek-then-parse, explicit progress checks, productive callees derived by a fixpoint) or be a recognised non-cursor loop; every backward cursor move must target a saved index or be covered by consumption/dispatch credit; every class-table lookup must be dominated by a successful match on the same table; the generator's fall-through and every explicit raise must stay inside the library's error family; constant indexing of function-builder argument lists needs a dominating length guard; the scanner runs only under the TokenError wrapper. This found and led to fixes for five genuine parser hangs. None-dereferences, work bounds and recursion depth are not decided.",
+    technique="static analysis: loop-progress dataflow with interprocedural 'productive' summaries (greatest fixpoint over all parser classes) on a hand-built CFG; provenance/consumption analysis of cursor moves; must-dataflow dominance for table lookups; raise-family lint, length-bound and token-existence dataflows, typed definite-assignment lint",
+    text="Every while loop of the recursive-descent parser (all 34 parser classes) and of the tokenizer must reach each back edge having consumed a token (consuming-match conditions, unconditional advances, peek-then-parse, explicit progress checks, productive callees derived by a fixpoint) or be a recognised non-cursor loop; every backward cursor move must target a saved index or be covered by consumption/dispatch credit; every class-table lookup must be dominated by a successful match on the same table; the generator's fall-through and every explicit raise must stay inside the library's error family; constant indexing of function-builder argument lists and of every list-typed local/attribute of the parser, tokenizer and JSON-path parser needs a dominating length fact (length-bound dataflow, one-level caller facts for list parameters); every forward _advance needs evidence that the token it steps over exists; callees that un-read their caller's match are charged back to the caller's loop; locals are definitely assigned (mypy possibly-undefined); the scanner runs only under the TokenError wrapper. This found and led to fixes for five parser hangs, a cursor restored one token too far and seven IndexError/UnboundLocalError leaks. None-dereferences, work bounds and recursion depth are not decided.",
     ref="DESIGN.md section 4 / C05",
 )
 
